@@ -98,7 +98,7 @@ func FinishVoid(fns ...func()) {
 // ForEach 加工所有生成的元素，但并不输出。
 func ForEach(generate GenerateFunc, mapper ForEachFunc, opts ...Option) {
 	options := buildOptions(opts...)
-	panicChan := &onceChan{channel: make(chan any)}
+	panicChan := newOnceChan()
 	source := buildSource(generate, panicChan)
 	collector := make(chan any)
 	done := make(chan lang.PlaceholderType)
@@ -121,6 +121,7 @@ func ForEach(generate GenerateFunc, mapper ForEachFunc, opts ...Option) {
 			panic(v)
 		case _, ok := <-collector:
 			if !ok {
+				panicChan.rethrow()
 				return
 			}
 		}
@@ -141,14 +142,14 @@ func MapReduceVoid(generate GenerateFunc, mapper MapperFunc, reducer VoidReducer
 
 // MapReduce 加工所有生成的元素，并聚合后输出。
 func MapReduce(generate GenerateFunc, mapper MapperFunc, reducer ReducerFunc, opts ...Option) (any, error) {
-	panicChan := &onceChan{channel: make(chan any)}
+	panicChan := newOnceChan()
 	source := buildSource(generate, panicChan)
 	return mapReduceWithPanicChan(source, panicChan, mapper, reducer, opts...)
 }
 
 // MapReduceChan 加工所有给定的源数据，并聚合输出。
 func MapReduceChan(source <-chan any, mapper MapperFunc, reducer ReducerFunc, opts ...Option) (any, error) {
-	panicChan := &onceChan{channel: make(chan any)}
+	panicChan := newOnceChan()
 	return mapReduceWithPanicChan(source, panicChan, mapper, reducer, opts...)
 }
 
@@ -243,6 +244,7 @@ func mapReduceWithPanicChan(source <-chan any, panicChan *onceChan, mapper Mappe
 		drain(output)
 		panic(v)
 	case v, ok := <-output:
+		panicChan.rethrow()
 		if err := retErr.Load(); err != nil {
 			return nil, err
 		} else if ok {
@@ -347,9 +349,23 @@ type onceChan struct {
 	wrote   int32
 }
 
+// 缓冲为 1：write 至多发生一次，即使调用方已不再接收也绝不阻塞。
+func newOnceChan() *onceChan {
+	return &onceChan{channel: make(chan any, 1)}
+}
+
 func (c *onceChan) write(v any) {
 	if atomic.CompareAndSwapInt32(&c.wrote, 0, 1) {
 		c.channel <- v
+	}
+}
+
+// rethrow 重新抛出已写入但尚未被接收的 panic。
+func (c *onceChan) rethrow() {
+	select {
+	case v := <-c.channel:
+		panic(v)
+	default:
 	}
 }
 
